@@ -904,6 +904,153 @@ def run_beyond(ctx):
 
 
 # ----------------------------------------------------------------------------
+# Round j: note names AS THE CODE READS THEM (Model/C12_NoteName.v): the pattern applied with .search on texts that are
+# not whole strings of the grammar, the greedy groups, the sign table lookup, int() of the digit group
+
+NS_JUNK = " _=;:.,+/|()acdeghrsyz#bxHIKRnf-0123456789"
+NS_JUNK_NOSTEP_NODIGIT = " _=;:.,+/|()acdeghrsyz#bxHIKRnf-"
+
+
+def nn_scan(n):
+    """independent reading of a text: the first position that holds letter A-G, signs over x b #, at least one digit"""
+    for i, ch in enumerate(n):
+        if ch not in "ABCDEFG":
+            continue
+        j = i + 1
+        while j < len(n) and n[j] in ACC_ALPHABET:
+            j += 1
+        k = j
+        while k < len(n) and n[k] in "0123456789":
+            k += 1
+        if k > j:
+            return ch, n[i + 1:j], n[j:k], i, k
+    return None
+
+
+def gen_namesearch(rng, M):
+    """one text + its kind"""
+    def name(doc=None):
+        st = rng.choice(STEPS7)
+        if doc is None:
+            doc = rng.random() < 0.7
+        acc = rng.choice(DOC_ACC) if doc else "".join(rng.choice(ACC_ALPHABET) for _ in range(rng.randint(2, 4)))
+        octs = str(rng.choice([rng.randint(0, 9), rng.randint(0, 12), rng.randint(10, 10 ** 5)]))
+        if rng.random() < 0.12:
+            octs = "0" * rng.randint(1, 2) + octs
+        return st + acc + octs
+
+    def junk(alphabet, lo, hi):
+        return "".join(rng.choice(alphabet) for _ in range(rng.randint(lo, hi)))
+
+    u = rng.random()
+    if u < 0.12:
+        return name(True), "whole_documented"
+    if u < 0.22:
+        return name(False), "whole_other_signs"
+    if u < 0.36:
+        st, al, oc = rng.choice(STEPS7), rng.randint(-3, 3), rng.choice([rng.randint(0, 9), rng.randint(10, 10 ** 4)])
+        r = _try(M.pitch_spelling_to_note_name, st, al, oc)
+        nm = r[1] if r[0] == "ok" and isinstance(r[1], str) else st + str(oc)
+        return junk(NS_JUNK_NOSTEP_NODIGIT, 1, 5) + nm + (junk(NS_JUNK_NOSTEP_NODIGIT, 0, 4)), "printed_embedded"
+    if u < 0.50:
+        pre = junk(NS_JUNK + "ABCDEFG", 1, 6)
+        return pre + name() + junk(NS_JUNK + "ABCDEFG", 0, 5), "embedded_any_text"
+    if u < 0.60:
+        return name() + rng.choice([" ", ",", "/", "-", "", "_"]) + name(), "two_names"
+    if u < 0.72:
+        # a letter (with or without signs) that no digit follows, directly in front of a name
+        head = rng.choice(STEPS7) + rng.choice(["", "b", "#", "x", "bb", "#b"])
+        return head + name(), "failed_attempt_then_name"
+    if u < 0.80:
+        # digits directly behind the name's digits / a sign directly behind
+        return name() + rng.choice(["#", "b", "x", ".5", "th", "A", " 7"]), "name_then_text"
+    if u < 0.90:
+        st = rng.choice(STEPS7)
+        return rng.choice([
+            "", st, st + "#", st + "bb", st.lower() + "4", "H4", "4" + st, st + "n4", st + "s4", st + "f3", st + "-1",
+            st + "#-2", st + " 4", st + "# 4", "r4", "R", st + "b" + st + "#", junk(NS_JUNK_NOSTEP_NODIGIT, 1, 6),
+            junk("0123456789 ", 1, 5), st + "#" + "." + "4"]), "nameless"
+    return junk(NS_JUNK + "ABCDEFG", 0, 9), "random_text"
+
+
+def run_namesearch(ctx):
+    """note_name_to_pitch_spelling / note_name_to_midi_pitch on texts around and beside the grammar: direct oracle
+    (independent scan, one semitone per sign, twelve-tone arithmetic) + correspondence with nn_spelling_with /
+    nn_midi_with over the code's own SIGN_TO_ALTER (Model/C12_NoteName.nn_agrees)"""
+    import partitura.utils.music as M
+    rng = ctx.rng
+    n = 420 if ctx.tier == "quick" else 6000
+    terms, kept = [], []
+    seen = set()
+
+    def viol(what, obj):
+        if len(ctx.violations) < 10:
+            ctx.violation(what, obj)
+
+    for i in range(n):
+        text, kind = gen_namesearch(rng, M)
+        rp = _ps_norm(_try(M.note_name_to_pitch_spelling, text))
+        rm = _int_norm(_try(M.note_name_to_midi_pitch, text))
+        ctx.evaluations += 2
+        sc = nn_scan(text)
+        ctx.count("namesearch:kind_" + kind)
+        if sc is None:
+            ctx.count("namesearch:no_name_in_text")
+            if rp[0] == "ok" or rm[0] == "ok":
+                viol("note_name_to_pitch_spelling(%r) = %r, note_name_to_midi_pitch = %r: the text holds no letter A-G followed by "
+                     "signs and an octave number, any value is invented" % (text, rp, rm),
+                     {"function": "note_name_to_pitch_spelling", "args": [text], "got": [rp, rm], "expected": "rejected"})
+                continue
+        else:
+            st, acc, digs, i0, i1 = sc
+            al = sign_value(acc)
+            whole = i0 == 0 and i1 == len(text)
+            ctx.count("namesearch:name_at_%s" % ("start" if i0 == 0 else "offset"))
+            ctx.count("namesearch:signs_%s" % ("documented" if acc in DOC_ACC else "other"))
+            if len(digs) > 1:
+                ctx.count("namesearch:multi_digit_octave")
+            if any(c in "ABCDEFG" for c in text[:i0]):
+                ctx.count("namesearch:failed_attempt_before_name")
+            if nn_scan(text[i1:]) is not None:
+                ctx.count("namesearch:second_name_behind")
+            exp = (st, al, int(digs))
+            if rp[0] == "ok":
+                ctx.count("namesearch:accepted")
+                if rp != ("ok", exp) or rm != ("ok", midi_of(*exp)):
+                    viol("note_name_to_pitch_spelling(%r) = %r, note_name_to_midi_pitch = %r; the first name in the text is %r: by twelve-tone "
+                         "arithmetic %r, MIDI pitch %r" % (text, rp, rm, st + acc + digs, exp, midi_of(*exp)),
+                         {"function": "note_name_to_pitch_spelling", "args": [text], "got": [rp, rm], "expected": [list(exp), midi_of(*exp)]})
+                    continue
+            else:
+                ctx.count("namesearch:rejected_with_name_in_text")
+                if rm[0] == "ok":
+                    viol("note_name_to_midi_pitch(%r) = %r although note_name_to_pitch_spelling rejects the text (%r)" % (text, rm, rp),
+                         {"function": "note_name_to_midi_pitch", "args": [text], "got": [rp, rm], "expected": "both or neither"})
+                    continue
+                if whole and acc in DOC_ACC:
+                    viol("note_name_to_pitch_spelling(%r) rejected: %r" % (text, rp),
+                         {"function": "note_name_to_pitch_spelling", "args": [text], "got": rp, "expected": list(exp)})
+                    continue
+        if text not in seen:
+            seen.add(text)
+            ctx.nontrivial(("namesearch", text))
+        terms.append("(%s, %s, %s)" % (cstr(text), _res(rp, _ps3) if rp[0] == "ok" else "None", _res(rm, cz)))
+        kept.append({"function": "note_name_to_pitch_spelling", "args": [text], "got": [rp, rm],
+                     "expected": "Model/C12_NoteName.nn_spelling_with / nn_midi_with over the code's SIGN_TO_ALTER"})
+    ctx.count("namesearch:cases", len(terms))
+    ctx.count("namesearch:distinct_texts", len(seen))
+    ctx.sample({"stream": "namesearch", "cases": [k["args"][0] for k in kept[:6]]})
+    failing = ctx.coq_failing("namesearch", "From PV Require Import Lib.Base Model.C12 Model.C12_NoteName Gen.C12_Tab.", "", terms,
+                              "fun c : string * option (string * Z * Z) * option Z => match c with (n, r, m) => nn_agrees tab_sign_to_alter n r m end",
+                              ty="string * option (string * Z * Z) * option Z")
+    ctx.obligation("correspondence: model nn_spelling_with / nn_midi_with (leftmost successful attempt of the pattern, greedy groups, the code's own "
+                   "SIGN_TO_ALTER, int of the digit group) = note_name_to_pitch_spelling / note_name_to_midi_pitch on %d texts (whole names, names "
+                   "inside other text, two names, failed attempts in front of a name, texts without a name)" % len(terms), not failing, failing[:5])
+    for i in failing[:5]:
+        ctx.violation("model/implementation disagree on reading a note name out of a text", kept[i])
+
+
+# ----------------------------------------------------------------------------
 # HISTORIES: state carried on an argument object between calls.
 # A real partitura.score.Interval (Note, Tuplet, KeySignature, Tempo) is constructed the way users
 # construct it, then a generated sequence of operations is applied to THAT object; after every
@@ -2499,7 +2646,7 @@ def run(ctx):
     # the translator's subset is stubbed (soft fall-back, no obligation fails); a proof that no longer compiles is
     # reported there with a concrete differing input when one is found
     t1_ok = t1.tie(ctx, "C12")
-    ok, why = ctx.coq_props(expect_min=84)
+    ok, why = ctx.coq_props(expect_min=91)
     for fn, arg, got, exp in bad[:10]:
         ctx.violation("%s(%r) = %r, expected %r" % (fn, arg, got, exp), {"function": fn, "args": arg, "got": got, "expected": exp})
     if not ok and not bad and t1_ok:
@@ -2507,6 +2654,7 @@ def run(ctx):
     if ok:
         run_ticks(ctx)
         run_beyond(ctx)
+        run_namesearch(ctx)
         run_histories(ctx, with_tr=False, objects=True)
         run_fn_histories(ctx)
         run_again(ctx, T, tabs0)
